@@ -25,8 +25,9 @@ TOOL = 4
 
 
 # ------------------------------------------------------------------------------------------------ LZW
-def lzw_events(enc):
-    """-> (decoded bytes or None, exception name or None, [ {c, w, t, o} ... ])"""
+def lzw_events(enc, ec=1):
+    """-> (decoded bytes or None, exception name or None, [ {c, w, t, o} ... ])
+    ec = 0: decoded as a stream with /DecodeParms << /EarlyChange 0 >> through PDFStream.decode"""
     cls = _lzw.LZWDecoder
     if not hasattr(cls, "feed") or not hasattr(cls, "run"):
         raise MachineryError("LZWDecoder.feed/run not found")
@@ -48,7 +49,11 @@ def lzw_events(enc):
     cls.feed = feed
     try:
         try:
-            out = _lzw.lzwdecode(enc)
+            if ec == 1:
+                out = _lzw.lzwdecode(enc)
+            else:
+                from pdfminer.psparser import LIT
+                out = _pdftypes.PDFStream({"Filter": LIT("LZWDecode"), "DecodeParms": {"EarlyChange": ec}}, enc).get_data()
             return out, None, ev
         except Exception as e:       # noqa: BLE001 - reported to the caller
             return None, type(e).__name__, ev
